@@ -1015,6 +1015,7 @@ def specs_for(tier):
         # members whose PACKED stream is large too (stored / incompressible): input reads and the write loop must stay per block
         add("copy", 1024, ops=(D, F))
         add("zstd", 768, pattern="random")
+        add("deflate", 1024, pattern="random")      # a wrapper that keeps the packed input it has already used shows only here
         add("ppmd", 128)
         add("x86+deflate", 512)
         add("deflate+aes", 512)
